@@ -71,7 +71,6 @@ func (e Ev) String() string {
 
 type compPlan struct {
 	FailStart    bool
-	FailStartGen int // if >0, Start fails only for the instance of that configuration generation
 	FailShutdown bool
 	ParkStart    bool // Start parks on the world's gate until released
 	ParkShutdown bool
@@ -91,23 +90,31 @@ type World struct {
 	r  *simkit.Run
 	mu sync.Mutex
 	// Gen is stamped on components created from now on (C20 bumps it for every configuration it serves).
-	Gen        int
-	log        []Ev
-	plans      map[string]*compPlan
-	creates    map[string]int
-	deliveries []delivery
-	gate       *simkit.Gate
-	recvs      map[string]*stubReceiver // key
-	hosts      map[string]component.Host
-	shared     *sharedcomponent.Map[component.ID, *stubShared]
-	statusLog  []string
-	onConsume  func(comp string, sig string, payload any) // optional tap (C06 graph mode)
-	comps      map[string]*stubBase
+	Gen         int
+	log         []Ev
+	plans       map[string]*compPlan
+	creates     map[string]int
+	deliveries  []delivery
+	gate        *simkit.Gate
+	recvs       map[string]*stubReceiver // key
+	hosts       map[string]component.Host
+	shared      *sharedcomponent.Map[component.ID, *stubShared]
+	statusLog   []string
+	onConsume   func(comp string, sig string, payload any) // optional tap (C06 graph mode)
+	comps       map[string]*stubBase
+	failStartAt map[int]string
 }
 
 func NewWorld(r *simkit.Run) *World {
 	return &World{r: r, Gen: 1, plans: map[string]*compPlan{}, creates: map[string]int{}, gate: simkit.NewGate(), recvs: map[string]*stubReceiver{},
-		hosts: map[string]component.Host{}, shared: sharedcomponent.NewMap[component.ID, *stubShared](), comps: map[string]*stubBase{}}
+		failStartAt: map[int]string{}, hosts: map[string]component.Host{}, shared: sharedcomponent.NewMap[component.ID, *stubShared](), comps: map[string]*stubBase{}}
+}
+
+// failStartAt: generation -> component key whose Start fails in that generation only (C20)
+func (w *World) failsAt(gen int, key string) bool {
+	w.mu.Lock()
+	defer w.mu.Unlock()
+	return w.failStartAt[gen] == key && key != ""
 }
 
 func (w *World) plan(key string) *compPlan {
@@ -145,12 +152,12 @@ var errStubConsume = errors.New("stub: consume failed")
 
 // stubBase implements Start/Shutdown with logging, failing and parking.
 type stubBase struct {
-	w    *World
-	key  string // key known at creation
-	rkey string // key resolved at Start from the instance id the graph hands over (adds the pipeline of a processor)
-	gen  int
-	host component.Host
-	live bool
+	w                 *World
+	key               string // key known at creation
+	rkey              string // key resolved at Start from the instance id the graph hands over (adds the pipeline of a processor)
+	gen               int
+	host              component.Host
+	live              bool
 	nStart, nShutdown int
 }
 
@@ -192,7 +199,7 @@ func (b *stubBase) Start(_ context.Context, host component.Host) error {
 	if p.ParkStart {
 		b.w.gate.Park("start:" + b.k())
 	}
-	if p.FailStart && (p.FailStartGen == 0 || p.FailStartGen == b.gen) {
+	if p.FailStart || b.w.failsAt(b.gen, b.k()) {
 		b.w.emit("start-fail", b.k(), b.gen, "")
 		return fmt.Errorf("%s: %w", b.k(), errStubStart)
 	}
@@ -445,8 +452,10 @@ func (p *stubProcessor) do(ctx context.Context, payload any) error {
 	}
 	return p.next.consume(ctx, payload)
 }
-func (p *stubProcessor) ConsumeLogs(ctx context.Context, ld plog.Logs) error     { return p.do(ctx, ld) }
-func (p *stubProcessor) ConsumeTraces(ctx context.Context, td ptrace.Traces) error { return p.do(ctx, td) }
+func (p *stubProcessor) ConsumeLogs(ctx context.Context, ld plog.Logs) error { return p.do(ctx, ld) }
+func (p *stubProcessor) ConsumeTraces(ctx context.Context, td ptrace.Traces) error {
+	return p.do(ctx, td)
+}
 func (p *stubProcessor) ConsumeMetrics(ctx context.Context, md pmetric.Metrics) error {
 	return p.do(ctx, md)
 }
@@ -516,8 +525,10 @@ func (e *stubExporter) do(_ context.Context, payload any) error {
 	}
 	return nil
 }
-func (e *stubExporter) ConsumeLogs(ctx context.Context, ld plog.Logs) error     { return e.do(ctx, ld) }
-func (e *stubExporter) ConsumeTraces(ctx context.Context, td ptrace.Traces) error { return e.do(ctx, td) }
+func (e *stubExporter) ConsumeLogs(ctx context.Context, ld plog.Logs) error { return e.do(ctx, ld) }
+func (e *stubExporter) ConsumeTraces(ctx context.Context, td ptrace.Traces) error {
+	return e.do(ctx, td)
+}
 func (e *stubExporter) ConsumeMetrics(ctx context.Context, md pmetric.Metrics) error {
 	return e.do(ctx, md)
 }
@@ -574,8 +585,10 @@ func (c *stubConnector) do(ctx context.Context, payload any) error {
 	}
 	return c.next.consume(ctx, newPayload(c.to, items))
 }
-func (c *stubConnector) ConsumeLogs(ctx context.Context, ld plog.Logs) error     { return c.do(ctx, ld) }
-func (c *stubConnector) ConsumeTraces(ctx context.Context, td ptrace.Traces) error { return c.do(ctx, td) }
+func (c *stubConnector) ConsumeLogs(ctx context.Context, ld plog.Logs) error { return c.do(ctx, ld) }
+func (c *stubConnector) ConsumeTraces(ctx context.Context, td ptrace.Traces) error {
+	return c.do(ctx, td)
+}
 func (c *stubConnector) ConsumeMetrics(ctx context.Context, md pmetric.Metrics) error {
 	return c.do(ctx, md)
 }
